@@ -291,8 +291,15 @@ class C08(Check):
             for _, s in gen.nest2(EVAL_CTORS, EVAL_CTORS, FILL):
                 yield ("ts", s)
 
+        def twins():
+            for t in gen.twin_trees():
+                yield ("ts", t)
+            for t in gen.twin_trees(gen.TYPED_TWINS, X, Y):
+                yield ("ts", t)
+
         self._sigmas = sigmas
-        return [("depth2", d2), ("nest2", n2), ("shared-dict", self.gen_shared_dict)]
+        return [("depth2", d2), ("nest2", n2), ("twins", twins),
+                ("shared-dict", self.gen_shared_dict)]
 
     # -- histories of calls that share one assignment dict ---------------------------------------
     HTREES = [Sum(X, Y), Prod(X, AX), ("Call", V("f"), ("tuple", Y, OX)), Sum(OA, X)]
